@@ -282,21 +282,21 @@ def run_shard(spec):
             check_success(env, q, st.metadata, out, value, where_r, viol, registry)
             if cache is not None and not out.volatile and out.caching:
                 cm = cache.get_metadata(canon)
-                if cm is None:
-                    # no copy, nothing to agree with - unless the cache had no excuse: metadata that cannot be written
-                    # as JSON (a state variable holding bytes, a set, ...) is legitimately refused by serialising caches
-                    try:
-                        json.dumps(st.metadata)
-                        from liquer.state_types import encode_state_data
+                # a result a serialising cache cannot write (metadata that is not JSON: a state variable holding bytes, a
+                # set, ...; a value without default encoding: a dictionary holding a data frame) is legitimately not kept -
+                # whatever record of it is left there (nothing, an earlier progress report) is then not "the kept copy"
+                try:
+                    json.dumps(st.metadata)
+                    from liquer.state_types import encode_state_data
 
-                        encode_state_data(value)    # e.g. a dictionary holding a data frame has no default encoding
-                        excusable = False
-                    except Exception:
-                        excusable = True
-                    if excusable:
-                        env.count("cache_copy_not_kept_unserialisable_result")
-                    else:
-                        viol("cache_copy.missing", "cache keeps no metadata for successful %r" % q)
+                    encode_state_data(value)
+                    excusable = False
+                except Exception:
+                    excusable = True
+                if excusable:
+                    env.count("cache_copy_not_kept_unserialisable_result")
+                elif cm is None:
+                    viol("cache_copy.missing", "cache keeps no metadata for successful %r" % q)
                 else:
                     env.count("cache_copies_checked")
                     check_success(env, q, cm, out, value, "cache_copy", viol, registry)
@@ -318,7 +318,12 @@ def run_shard(spec):
                 if not st3.is_error:
                     check_success(env, q, st3.metadata, out, st3.get(), "returned_after_labelled_extension", viol, registry)
                     cm = cache.get_metadata(canon)
-                    if cm is not None:
+                    try:
+                        json.dumps(st3.metadata)
+                        writable = True
+                    except Exception:
+                        writable = False     # the cache cannot have written this result (see above)
+                    if cm is not None and writable:
                         check_success(env, q, cm, out, st3.get(), "cache_copy_after_labelled_extension", viol, registry)
             except Exception:
                 pass
